@@ -49,8 +49,13 @@ def c1_dtm_blocks(fb, rep):
         return
     probes = [(b, i, e) for b, i, e in f.events() if e.get('k') == 'call' and cname(e) in ('TranspositionTable::probeDTM', 'TBProbe::gtbProbeDTM')]
     rep.floor(clause, 'distance-to-mate probe blocks', len(probes), 3)
+    # roles: the probed score = the variable handed to the probes as out-parameter; the ply = the first int parameter;
+    # the clock = the local initialised from getHalfMoveClock()
+    dtm_ids = {(_strip(e['args'][2]) or {}).get('id') for b, i, e in probes if len(e.get('args', [])) >= 3}
+    ply_ids = [p_['id'] for p_ in f.d.get('params', []) if (p_.get('t') or '') == 'int']
+    hmc_ids = {v['id'] for _, _, e in f.events() if e.get('k') == 'decl' for v in e.get('vars', []) if any(n.get('k') == 'call' and cname(n) == 'Position::getHalfMoveClock' for n in walk(v.get('init') or {}))}
     exact = [(b, i, e) for b, i, e in f.events() if e.get('k') == 'call' and cname(e) == 'TranspositionTable::TTEntry::setScore' and
-             show(_strip(e['args'][0])) == 'dtmScore']
+             (_strip(e['args'][0]) or {}).get('id') in dtm_ids]
     rep.ob(clause, 'K10 sibling agreement', 'every distance-to-mate probe has exactly one place where its score is stored as exact', len(exact) == len(probes), f.where,
            '%d probes, %d exact stores' % (len(probes), len(exact)), f.sname)
     sigs = []
@@ -68,10 +73,10 @@ def c1_dtm_blocks(fb, rep):
         if ok:
             for n in walk(gate):
                 if n.get('k') == 'call' and cname(n) == 'rule50Margin':
-                    args = [show(_strip(a)) for a in n.get('args', [])]
-                    if args[:3] != ['dtmScore', 'ply', 'hmc']:
+                    args = [(_strip(a) or {}).get('id') for a in n.get('args', [])]
+                    if not (len(args) >= 3 and args[0] in dtm_ids and ply_ids and args[1] == ply_ids[0] and args[2] in hmc_ids):
                         ok = False
-                        why += '; arguments %s' % args
+                        why += '; arguments %s' % [show(_strip(a)) for a in n.get('args', [])]
         rep.ob(clause, 'K4 guard', 'DTM block #%d: the exact mate score is stored only under (score == 0 || rule50Margin(score, ply, clock) >= 0)' % (k + 1), ok, R.site(f, e), why, f.sname)
         # exact store is followed by type EXACT and a successful return
         tys = [show(x['args'][0]) for x in f.blocks[b]['ev'] if x.get('k') == 'call' and cname(x) == 'TranspositionTable::TTEntry::setType']
@@ -88,7 +93,7 @@ def c1_dtm_blocks(fb, rep):
                     continue
                 seenb.add(x0)
                 evs += [x for x in f.blocks[x0]['ev'] if x.get('k') == 'call' and cname(x).startswith('TranspositionTable::TTEntry::set')]
-                if any(x.get('k') == 'asg' and isinstance(x.get('l'), dict) and x['l'].get('n') == 'hasDtm' for x in f.blocks[x0]['ev']):
+                if any(x.get('k') == 'asg' and isinstance(x.get('l'), dict) and x['l'].get('vk') == 'local' and (x['l'].get('t') or '') == 'bool' for x in f.blocks[x0]['ev']):
                     break
                 q.extend(f.blocks[x0]['succ'])
             sc = [x for x in evs if cname(x).endswith('setScore')]
@@ -96,17 +101,21 @@ def c1_dtm_blocks(fb, rep):
             okb = len(sc) == 1 and (_strip(sc[0]['args'][0]) or {}).get('cv') == 0 and len(ty) == 1
             if okb:
                 t0 = _strip(ty[0]['args'][0])
-                okb = isinstance(t0, dict) and t0.get('k') == 'cond' and show(_strip(t0.get('c'))) == '(dtmScore > 0)' and \
+                c0 = _strip(t0.get('c')) if isinstance(t0, dict) else None
+                okb = isinstance(t0, dict) and t0.get('k') == 'cond' and isinstance(c0, dict) and c0.get('k') == 'bin' and c0.get('op') == '>' and \
+                    (_strip(c0.get('l')) or {}).get('id') in dtm_ids and (_strip(c0.get('r')) or {}).get('cv') == 0 and \
                     show(_strip(t0.get('a'))).endswith('T_GE') and show(_strip(t0.get('b'))).endswith('T_LE')
             rep.ob(clause, 'K10 sibling agreement', 'DTM block #%d: a mate beyond the limit is stored as score 0 with bound >= for the winner and <= for the loser' % (k + 1), okb,
                    R.site(f, e), '', f.sname)
-            sigs.append(sorted(show(x, 200) for x in evs) + sorted(show(x, 200) for x in f.blocks[b]['ev'] if x.get('k') == 'call' and cname(x).startswith('TranspositionTable::TTEntry::set')))
+            from ..core import canonical
+            with canonical(f):
+                sigs.append(sorted(show(x, 200) for x in evs) + sorted(show(x, 200) for x in f.blocks[b]['ev'] if x.get('k') == 'call' and cname(x).startswith('TranspositionTable::TTEntry::set')))
     same = len(sigs) >= 3 and all(sg == sigs[0] for sg in sigs[1:])
     rep.ob(clause, 'K10 sibling agreement', 'the distance-to-mate blocks of tbProbe store identical records', same, f.where, '' if same else str(sigs), f.sname)
-    ok = any(e.get('k') == 'decl' and any(v.get('n') == 'hmc' and 'getHalfMoveClock' in show(v.get('init')) for v in e.get('vars', [])) for _, _, e in f.events())
+    ok = bool(hmc_ids)
     rep.ob(clause, 'K15 provenance', 'tbProbe measures the 50-move margin with the position\'s half-move clock', ok, f.where, '', f.sname)
     # no write to hmc / dtmScore between the probe and the gate other than the probe itself
-    w_hmc = [e for _, _, e in f.events() if e.get('k') == 'asg' and isinstance(e.get('l'), dict) and e['l'].get('n') == 'hmc']
+    w_hmc = [e for _, _, e in f.events() if e.get('k') == 'asg' and isinstance(e.get('l'), dict) and e['l'].get('id') in hmc_ids]
     rep.ob(clause, 'K15 provenance', 'the clock value is not modified inside tbProbe', not w_hmc, f.where, '', f.sname)
 
 
@@ -161,13 +170,19 @@ def c3_extend(fb, rep):
             if any(e.get('k') == 'ret' for e in ex.blocks[tb]['ev']):
                 conds[bid] = show(t['cond'], 400).replace('this->', '')
     no_win = [b for b, c in conds.items() if 'dtmProbe' in c and 'isWinScore' in c]
-    too_far = [b for b, c in conds.items() if 'MATE0' in c and '> (100 - pos.getHalfMoveClock())' in c]
+    import re as _re
+    too_far = [b for b, c in conds.items() if 'MATE0' in c and _re.search(r'> \(100 - \S*getHalfMoveClock\(\)\)', c)]
     rep.ob(clause, 'K4 guard', 'extendPV returns early when the replayed position is no tablebase win', bool(no_win), ex.where, str(list(conds.values())), ex.sname)
     rep.ob(clause, 'K4 guard', 'extendPV returns early when the mate lies beyond the 50-move limit', bool(too_far), ex.where, str(list(conds.values())), ex.sname)
-    pushes = [(b, i, e) for b, i, e in ex.events() if e.get('k') == 'call' and cname(e).split('::')[-1] == 'push_back' and isinstance(e.get('recv'), dict) and e['recv'].get('n') == 'pv']
+    pv_ids = {p_['id'] for p_ in ex.d.get('params', []) if 'vector' in (p_.get('t') or '') and 'Move' in (p_.get('t') or '')}
+    pushes = [(b, i, e) for b, i, e in ex.events() if e.get('k') == 'call' and cname(e).split('::')[-1] == 'push_back' and isinstance(e.get('recv'), dict) and e['recv'].get('id') in pv_ids]
     rep.floor(clause, 'PV extension sites', len(pushes), 1)
     for b, i, e in pushes:
         ok = bool(no_win) and bool(too_far) and all(d in ex.dominators().get(b, set()) for d in no_win + too_far)
         rep.ob(clause, 'K2 must-precede', 'extendPV extends the PV only after both early-return tests', ok, R.site(ex, e), '', ex.sname)
         g = G.guards_of(ex, set(ex.blocks), b)
-        rep.ob(clause, 'K4 guard', 'extendPV appends only moves that keep the tablebase score (shortest mate)', any('newScore == score' in x for x in g), R.site(ex, e), 'guards %s' % g, ex.sname)
+        gt = G.guard_trees(ex, set(ex.blocks), b)
+        keeps = any(sd and isinstance(_strip(g_), dict) and _strip(g_).get('k') == 'bin' and _strip(g_).get('op') == '==' and
+                    all(isinstance(_strip(x_), dict) and _strip(x_).get('k') == 'var' and _strip(x_).get('vk') == 'local' and (_strip(x_).get('t') or '') == 'int' for x_ in (_strip(g_)['l'], _strip(g_)['r']))
+                    for g_, sd in gt)
+        rep.ob(clause, 'K4 guard', 'extendPV appends only moves that keep the tablebase score (shortest mate)', keeps, R.site(ex, e), 'guards %s' % g, ex.sname)
